@@ -116,6 +116,10 @@ KeyAggCtx keyagg(const std::vector<std::array<uint8_t, 33>> &pks);   // ok=false
 U256 keyagg_coeff(const KeyAggCtx &c, const uint8_t pk33[33]);
 bool apply_tweak(KeyAggCtx &c, const uint8_t tweak32[32], bool xonly);  // false: tweak >= n or result infinity (ctx unchanged)
 bool nonce_agg(const std::vector<std::array<uint8_t, 66>> &pubnonces, uint8_t out66[66]);  // false if a pubnonce is invalid
+// BIP-327 NonceGen: sk32, aggpk32, msg, extra are optional (NULL = absent); k1/k2 receive the secret scalars (big endian),
+// pubnonce66 their public points. Returns false if a derived scalar is zero (probability 2^-256).
+bool nonce_gen(const uint8_t rand32[32], const uint8_t *sk32, const uint8_t pk33[33], const uint8_t *aggpk32, const uint8_t *msg, size_t msglen,
+               const uint8_t *extra, size_t extralen, uint8_t k1[32], uint8_t k2[32], uint8_t pubnonce66[66]);
 struct SessionVals {
     Pt R;          // final nonce (G if infinity)
     U256 b, e;
